@@ -266,7 +266,7 @@ func (s *synRunner) checkServed(id string, as []app.VerifC15Asset, in any, timeM
 			for k := 0; k+1 < len(r.Segments); k++ {
 				if r.Segments[k].EndTime != r.Segments[k+1].StartTime {
 					key := "noncontiguous:number-mode"
-					if timeMode[a.AssetPath+"/"+r.ID] {
+					if timeMode[a.AssetPath+"/"+r.ID] || !strings.Contains(r.MediaURI, "$Number$") {
 						key = "noncontiguous:time-mode"
 					}
 					s.c.Fail(id, key, fmt.Sprintf("asset %s rep %s: segment %d ends at %d, segment %d starts at %d",
